@@ -727,6 +727,22 @@ class C19(Plan):
         return g.cases
 
 
+def c19_arith(self, tier, wd):
+    """add_mod / sub_mod are re-translated from src/lib.rs and the exactness theorems re-proved on the generated text"""
+    import os
+    import c19arith
+    r = c19arith.run_arith(os.path.join(wd, "arith"), always_search=(tier != "quick"))
+    self.arith = {k: r.get(k) for k in ("ok", "path", "theorems", "assumptions", "problems", "generated", "counterexample", "search", "timings")}
+    if r.get("ok"):
+        return [("add_mod/sub_mod regenerated from src/lib.rs and proved exact for all 64-bit inputs (path: %s)" % r.get("path"), True, "")]
+    cx = r.get("counterexample")
+    detail = {"problems": r.get("problems"), "counterexample": cx, "generated": r.get("generated")}
+    return [("add_mod/sub_mod regenerated from src/lib.rs: theorems no longer proved", False, detail, cx is None)]
+
+
+C19.extra_obligations = c19_arith
+
+
 class C20(Plan):
     pid = "C20"
     corr = ("r", "st", "sz", "c")
